@@ -358,6 +358,24 @@ func z8Body(sc z8Scenario) func() {
 			// (w.stored holds exactly the stores that had returned nil at this instant: they must survive)
 			w.checkBlobs(func(cl, m string) { fail(cl+"-after-crash", m+" [crash "+label+"]") })
 			w.checkNames([]string{z8Name1, z8Name2}, func(cl, m string) { fail(cl+"-after-crash", m+" [crash "+label+"]") })
+			// the next process opens the cache on what the crash left and stores once more: a store that
+			// reports success must make the blob retrievable whatever debris is in its way
+			menu := []z8Op{{Kind: "import", Blob: "A", Src: z8Source{Kind: "good", Chunk: 2}}, {Kind: "put", Blob: "A", Src: z8Source{Kind: "good", Chunk: 2}},
+				{Kind: "put", Blob: "B", Src: z8Source{Kind: "good", Chunk: 3}}, {Kind: "import", Blob: "B", Src: z8Source{Kind: "good", Chunk: 3}}}
+			labels := []string{"nothing"}
+			for _, o := range menu {
+				labels = append(labels, fmt.Sprintf("%s %s", o.Kind, o.Blob))
+			}
+			if k := mcrt.Choose(mcrt.Free, "after the restart", labels...); k > 0 {
+				c2, err := Open(dir)
+				if err != nil {
+					fail("reopen-after-crash", fmt.Sprintf("the cache cannot be opened on what the crash left: %v [crash %s]", err, label))
+					return
+				}
+				mcrt.Observe("after restart: %s", labels[k])
+				z8Exec(c2, w, menu[k-1])
+				w.checkBlobs(func(cl, m string) { fail(cl+"-after-restart", m+" [crash "+label+", then "+labels[k]+"]") })
+			}
 		}
 		mcos.E = env
 		mcrt.OnExecEnd(func() { mcos.E = nil })
